@@ -101,3 +101,22 @@ for _g in range(0, len(_MEMBERS), 6):
                      '    assert!(<f64 as EvalexprFloat<N>>::%s(&x, &y).to_bits() == %s(x, y).to_bits());') % (m, st) for m, st, std, ar in _grp),
         attrs='\n'.join('#[kani::stub(%s, %s)]' % (std, st) for m, st, std, ar in _grp), decode=('float_member',),
         doc='libm-backed members %s of `impl EvalexprFloat for f64` call their own library function with the operands in order (library functions replaced by distinct tagged stubs)' % ', '.join(m for m, st, std, ar in _grp))
+
+# ---- C06: the hexadecimal literal parser of the default integer type (assumed as hex_int_spec on the abstract instance).
+# ---- Bounded stand-in: every string of one or two ASCII bytes (all 2^16 byte pairs that are valid UTF-8 of length <= 2).
+add('int_from_hex_str_len2', ['C06'], '''    let b0: u8 = kani::any(); let b1: u8 = kani::any(); let two: bool = kani::any();
+    kani::assume(b0 < 128 && b1 < 128);
+    let bytes = [b0, b1];
+    let s = if two { core::str::from_utf8(&bytes[..]).unwrap() } else { core::str::from_utf8(&bytes[..1]).unwrap() };
+    fn dig(b: u8) -> Option<i64> { match b { b'0'..=b'9' => Some((b - b'0') as i64), b'a'..=b'f' => Some((b - b'a') as i64 + 10), b'A'..=b'F' => Some((b - b'A') as i64 + 10), _ => None } }
+    let r = <i64 as EvalexprInt<N>>::from_hex_str(s);
+    if two {
+        match (dig(b0), dig(b1)) {
+            (Some(x), Some(y)) => assert!(r == Ok(16 * x + y)),
+            (None, Some(y)) => { if b0 == b'+' { assert!(r == Ok(y)); } else if b0 == b'-' { assert!(r == Ok(-y)); } else { assert!(r.is_err()); } },
+            _ => assert!(r.is_err()),
+        }
+    } else {
+        match dig(b0) { Some(x) => assert!(r == Ok(x)), None => assert!(r.is_err()) }
+    }''', bounded='strings of at most 2 ASCII bytes', attrs='#[kani::unwind(4)]', decode=('hexlit',),
+    doc='from_hex_str parses radix 16 (digits 0-9a-fA-F, optional sign as i64::from_str_radix accepts it) for every ASCII string of length 1 or 2')
